@@ -1,11 +1,14 @@
 /-
   C08 (LocalDateTime / Instant patterns with embedded `ld<…>` / `lt<…>` parts) — a success carries a valid value:
-  for every segmented pattern that passes the decidable check `segWF` (evaluated by the driver on the patterns of a
-  run: op `pat.wf` = 2), every valid ISO template value and every text, a successful parse yields a valid date and a
-  time inside the day.  (That `compileDateTime` only produces patterns passing `segWF` is checked by evaluation, not
-  proved.)
+  `parseSegmented_valid`: for every segmented pattern that passes the decidable check `segWF`, every valid ISO template
+  value and every text, a successful parse yields a valid date and a time inside the day;
+  `compileSegmented_segWF` / `compileDateTime_segWF`: every pattern with embedded parts that creation accepts passes
+  `segWF` (the driver evaluates it as well: op `pat.wf` = 2);
+  `datetime_success_valid_all`, `instant_success_valid_all`: success_value_valid for EVERY accepted LocalDateTime /
+  Instant pattern text, embedded parts or not.
 -/
 import PyodaProofs.C08DateTimeWF
+import PyodaProofs.C08StepsWF
 
 namespace Pyoda.C08
 open Pyoda Pyoda.Text
@@ -410,6 +413,316 @@ theorem datetime_segmented_success_valid (tm : Tmpl) (htm : TmplOK tm) (cu : Cul
     ∃ y m d nod, v = [y, m, d, nod] ∧ validDate y m d ∧ 0 ≤ nod ∧ nod < 86400000000000 := by
   simp only [parsePat] at h
   exact parseSegmented_valid tm htm cu used segs hwf l v h
+
+/-! ## every pattern with embedded parts that `compileDateTime` builds passes `segWF` -/
+
+theorem hasAny_or_right (b x y : Nat) : hasAny b (x ||| y) = (hasAny b x || hasAny b y) := by
+  unfold hasAny
+  rw [Nat.and_or_distrib_left]
+  by_cases h1 : b &&& x = 0 <;> by_cases h2 : b &&& y = 0 <;> simp [h1, h2, Nat.or_eq_zero_iff]
+
+theorem plainSteps_append (a b : List Seg) : plainSteps (a ++ b) = plainSteps a ++ plainSteps b := by
+  induction a with
+  | nil => rfl
+  | cons x xs ih => cases x <;> simp [plainSteps, ih]
+
+/-- all plain steps of a builder state -/
+def allPlain (st : DSt) : List Step := plainSteps st.segs ++ st.cur
+
+/-- the builder invariant of `compileLoopDT` -/
+structure InvD (st : DSt) : Prop where
+  inv : Inv ⟨st.used, allPlain st⟩
+  sb : ∀ s ∈ allPlain st, SetterBits st.used s
+  inner : st.segs.all segInnerWF = true
+  ed : hasAny st.used F.embeddedDate = true → st.segs.any isDateSeg = true
+  et : hasAny st.used F.embeddedTime = true → st.segs.any isTimeSeg = true
+
+theorem setterBits_or (u b : Nat) (s : Step) (h : SetterBits u s) : SetterBits (u ||| b) s :=
+  setterBits_mono u b s (Or.inl h)
+
+/-- OR-ing in a bit that is none of the month / day bits keeps the invariant of the plain steps -/
+theorem inv_add_bit (used : Nat) (steps : List Step) (bit : Nat) (h1 : hasAny bit F.monthNum = false)
+    (h2 : hasAny bit F.dayOfMonth = false) (h3 : hasAny bit F.monthText = false) (hi : Inv ⟨used, steps⟩) :
+    Inv ⟨used ||| bit, steps⟩ := by
+  obtain ⟨hw, hs⟩ := hi
+  refine ⟨hw, ?_⟩
+  unfold fieldsSound at hs ⊢
+  simp only [hasAny_or, h1, h2, h3, Bool.or_false]
+  exact hs
+
+theorem invD_plain (cu : Culture) (c : Char) (rest : Text) (st : DSt) (st' : CSt) (k : Nat) (hi : InvD st)
+    (h : handleDateTime cu c rest ⟨st.used, st.cur⟩ = .ok (st', k)) :
+    InvD { st with used := st'.used, cur := st'.steps } := by
+  obtain ⟨bits, added, e1, e2, g⟩ := handleDateTime_ext cu c rest _ st' k h
+  have g' := g
+  obtain ⟨g1, g2, g3, g4, g5, g6⟩ := g
+  dsimp only at e1 e2
+  rw [hasAny_or_right] at g6
+  simp only [Bool.or_eq_false_iff] at g6
+  have hall : allPlain { st with used := st'.used, cur := st'.steps } = allPlain st ++ added := by
+    simp only [allPlain, e2, List.append_assoc]
+  refine ⟨?_, ?_, hi.inner, ?_, ?_⟩
+  · rw [hall]
+    exact inv_ext ⟨st.used, allPlain st⟩ ⟨st'.used, allPlain st ++ added⟩ hi.inv ⟨bits, added, e1, rfl, g'⟩
+  · rw [hall]
+    intro s hs
+    dsimp only
+    rw [e1]
+    rcases List.mem_append.mp hs with h' | h'
+    · exact setterBits_or _ _ s (hi.sb s h')
+    · exact setterBits_mono _ _ s (Or.inr (g5 s h'))
+  · dsimp only; rw [e1, hasAny_or, g6.1, Bool.or_false]; exact hi.ed
+  · dsimp only; rw [e1, hasAny_or, g6.2, Bool.or_false]; exact hi.et
+
+theorem invD_embedded (cu : Culture) (hcu : cu.monthHeadsEmpty = true) (rest : Text) (st st' : DSt) (k : Nat) (hi : InvD st)
+    (h : handleEmbedded cu rest st = .ok (st', k)) : InvD st' := by
+  unfold handleEmbedded at h
+  split at h
+  · rename_i r
+    cases h1 : embeddedPattern r with
+    | error e => rw [h1] at h; cases h
+    | ok q =>
+      obtain ⟨text, k'⟩ := q
+      rw [h1] at h; dsimp only at h
+      cases h2 : addField ⟨st.used, []⟩ F.embeddedDate with
+      | error e => rw [h2] at h; cases h
+      | ok u =>
+        rw [h2] at h; dsimp only at h
+        obtain ⟨eu, _⟩ := addField_ok _ u _ h2
+        dsimp only at eu
+        cases h3 : compileDate cu text with
+        | error e => rw [h3] at h; cases h
+        | ok p =>
+          obtain ⟨c, rfl, w1, w2, w3⟩ := compileDate_wf cu hcu text p h3
+          rw [h3] at h; injection h with h; injection h with h _
+          rw [← h]
+          have hall : allPlain { used := u.used, segs := st.segs ++ [.plain st.cur, .date c], cur := [] } = allPlain st := by
+            simp [allPlain, plainSteps_append, plainSteps]
+          refine ⟨?_, ?_, ?_, ?_, ?_⟩
+          · rw [hall]; dsimp only; rw [eu]
+            exact inv_add_bit _ _ _ (by decide) (by decide) (by decide) hi.inv
+          · rw [hall]; dsimp only; rw [eu]
+            exact fun s hs => setterBits_or _ _ s (hi.sb s hs)
+          · dsimp only
+            rw [List.all_append, hi.inner]
+            simp [segInnerWF, w1, w2, w3]
+          · intro _; dsimp only; simp [List.any_append, isDateSeg]
+          · dsimp only; rw [eu, hasAny_or]
+            have : hasAny F.embeddedDate F.embeddedTime = false := by decide
+            rw [this, Bool.or_false]
+            intro hE; rw [List.any_append, hi.et hE]; rfl
+  · rename_i r
+    cases h1 : embeddedPattern r with
+    | error e => rw [h1] at h; cases h
+    | ok q =>
+      obtain ⟨text, k'⟩ := q
+      rw [h1] at h; dsimp only at h
+      cases h2 : addField ⟨st.used, []⟩ F.embeddedTime with
+      | error e => rw [h2] at h; cases h
+      | ok u =>
+        rw [h2] at h; dsimp only at h
+        obtain ⟨eu, _⟩ := addField_ok _ u _ h2
+        dsimp only at eu
+        cases h3 : compileTime cu text with
+        | error e => rw [h3] at h; cases h
+        | ok p =>
+          obtain ⟨c, rfl, w1⟩ := compileTime_wf cu text p h3
+          rw [h3] at h; injection h with h; injection h with h _
+          rw [← h]
+          have hall : allPlain { used := u.used, segs := st.segs ++ [.plain st.cur, .time c], cur := [] } = allPlain st := by
+            simp [allPlain, plainSteps_append, plainSteps]
+          refine ⟨?_, ?_, ?_, ?_, ?_⟩
+          · rw [hall]; dsimp only; rw [eu]
+            exact inv_add_bit _ _ _ (by decide) (by decide) (by decide) hi.inv
+          · rw [hall]; dsimp only; rw [eu]
+            exact fun s hs => setterBits_or _ _ s (hi.sb s hs)
+          · dsimp only
+            rw [List.all_append, hi.inner]
+            simp [segInnerWF, w1]
+          · dsimp only; rw [eu, hasAny_or]
+            have : hasAny F.embeddedTime F.embeddedDate = false := by decide
+            rw [this, Bool.or_false]
+            intro hE; rw [List.any_append, hi.ed hE]; rfl
+          · intro _; dsimp only; simp [List.any_append, isTimeSeg]
+  · cases h
+
+theorem compileLoopDT_inv (cu : Culture) (hcu : cu.monthHeadsEmpty = true) : ∀ (fuel : Nat) (text : Text) (st st' : DSt),
+    compileLoopDT cu fuel text st = .ok st' → InvD st → InvD st' := by
+  intro fuel
+  induction fuel with
+  | zero =>
+    intro text st st' h hs
+    cases text with
+    | nil => unfold compileLoopDT at h; injection h with h; rw [← h]; exact hs
+    | cons c r => unfold compileLoopDT at h; cases h
+  | succ f ih =>
+    intro text st st' h hs
+    cases text with
+    | nil => unfold compileLoopDT at h; injection h with h; rw [← h]; exact hs
+    | cons c rest =>
+      unfold compileLoopDT at h
+      cases hh : handleDT cu c rest st with
+      | error e => rw [hh] at h; cases h
+      | ok p =>
+        obtain ⟨st1, k⟩ := p
+        rw [hh] at h; dsimp only at h
+        refine ih _ st1 st' h ?_
+        unfold handleDT at hh
+        by_cases hl : c = 'l'
+        · rw [if_pos hl] at hh; exact invD_embedded cu hcu rest st st1 k hs hh
+        · rw [if_neg hl] at hh
+          cases hd : handleDateTime cu c rest ⟨st.used, st.cur⟩ with
+          | error e => rw [hd] at hh; cases hh
+          | ok q =>
+            obtain ⟨st2, k2⟩ := q
+            rw [hd] at hh; injection hh with hh; injection hh with hh _
+            rw [← hh]; exact invD_plain cu c rest st st2 k2 hs hd
+
+/-- a tracked setter among the plain steps contradicts an embedded pattern for the same fields (`_build`'s check) -/
+theorem no_setter_of_mask (used mask : Nat) (steps : List Step) (hsb : ∀ s ∈ steps, SetterBits used s)
+    (hm : used &&& mask = 0) (x : Slot) (hx : trackedBit x ≠ 0) (hin : mask &&& trackedBit x = trackedBit x) :
+    ∀ s ∈ steps, stepSets s ≠ some x := by
+  intro s hs he
+  have h1 := hsb s hs x he hx
+  have h2 : hasAny (used &&& mask) (trackedBit x) = hasAny used (trackedBit x) := hasAny_and used mask _ hin
+  rw [hm] at h2
+  rw [← h2] at h1
+  simp [hasAny] at h1
+
+/-- **every LocalDateTime pattern with embedded parts that is accepted passes `segWF`** (culture records whose month
+    tables start with the empty entry) -/
+theorem compileSegmented_segWF (cu : Culture) (hcu : cu.monthHeadsEmpty = true) (text : Text) (cu' : Culture) (used : Nat)
+    (segs : List Seg) (h : compileSegmented cu text = .ok (.segmented cu' used segs)) : segWF cu' used segs = true := by
+  unfold compileSegmented at h
+  cases h1 : compileLoopDT cu text.length text ⟨0, [], []⟩ with
+  | error e => rw [h1] at h; cases h
+  | ok st =>
+    rw [h1] at h; dsimp only at h
+    cases h2 : validateUsed st.used with
+    | error e => rw [h2] at h; cases h
+    | ok u =>
+      rw [h2] at h; dsimp only at h
+      cases h3 : buildCheck st.used with
+      | error e => rw [h3] at h; cases h
+      | ok u' =>
+        rw [h3] at h
+        injection h with h; injection h with hcu' hused hsegs
+        subst hcu'; subst hused; subst hsegs
+        have hi0 : InvD ⟨0, [], []⟩ :=
+          ⟨⟨rfl, by decide⟩, fun s hs => (by simp [allPlain, plainSteps] at hs), rfl,
+            fun hE => absurd hE (by decide), fun hE => absurd hE (by decide)⟩
+        have hi := compileLoopDT_inv cu hcu _ _ _ st h1 hi0
+        have hp : plainSteps (st.segs ++ [Seg.plain st.cur]) = allPlain st := by
+          simp [allPlain, plainSteps_append, plainSteps]
+        -- `_build`'s checks
+        unfold buildCheck at h3
+        have b1 : ¬ (st.used &&& F.embeddedDate ≠ 0 ∧ st.used &&& (F.allDateFields ^^^ F.embeddedDate) ≠ 0) := by
+          intro hc; rw [if_pos hc] at h3; cases h3
+        have b2 : ¬ (st.used &&& F.embeddedTime ≠ 0 ∧ st.used &&& (F.allTimeFields ^^^ F.embeddedTime) ≠ 0) := by
+          intro hc; rw [if_neg b1, if_pos hc] at h3; cases h3
+        unfold segWF
+        rw [hp]
+        simp only [Bool.and_eq_true, Bool.or_eq_true, Bool.not_eq_true']
+        refine ⟨⟨⟨⟨⟨hi.inv.1, hi.inv.2⟩, hcu⟩, ?_⟩, ?_⟩, ?_⟩
+        · rw [List.all_append, hi.inner]; rfl
+        · by_cases hE : hasAny st.used F.embeddedDate = true
+          · right
+            have hm : st.used &&& (F.allDateFields ^^^ F.embeddedDate) = 0 := by
+              by_cases hz : st.used &&& (F.allDateFields ^^^ F.embeddedDate) = 0
+              · exact hz
+              · exact absurd ⟨by simpa [hasAny] using hE, hz⟩ b1
+            refine ⟨by rw [List.any_append, hi.ed hE]; rfl, ?_⟩
+            rw [List.all_eq_true]
+            intro s hs
+            have n1 := no_setter_of_mask _ _ _ hi.sb hm .year (by decide) (by decide) s hs
+            have n2 := no_setter_of_mask _ _ _ hi.sb hm .monthNum (by decide) (by decide) s hs
+            have n3 := no_setter_of_mask _ _ _ hi.sb hm .dayOfMonth (by decide) (by decide) s hs
+            simp [n1, n2, n3]
+          · left; simpa using hE
+        · by_cases hE : hasAny st.used F.embeddedTime = true
+          · right
+            have hm : st.used &&& (F.allTimeFields ^^^ F.embeddedTime) = 0 := by
+              by_cases hz : st.used &&& (F.allTimeFields ^^^ F.embeddedTime) = 0
+              · exact hz
+              · exact absurd ⟨by simpa [hasAny] using hE, hz⟩ b2
+            refine ⟨by rw [List.any_append, hi.et hE]; rfl, ?_⟩
+            rw [List.all_eq_true]
+            intro s hs
+            have n1 := no_setter_of_mask _ _ _ hi.sb hm .hours24 (by decide) (by decide) s hs
+            have n2 := no_setter_of_mask _ _ _ hi.sb hm .minutes (by decide) (by decide) s hs
+            have n3 := no_setter_of_mask _ _ _ hi.sb hm .seconds (by decide) (by decide) s hs
+            have n4 := no_setter_of_mask _ _ _ hi.sb hm .fraction (by decide) (by decide) s hs
+            simp [n1, n2, n3, n4]
+          · left; simpa using hE
+
+theorem steppedOf_not_segmented (r : R Compiled) (cu' : Culture) (used : Nat) (segs : List Seg)
+    (h : steppedOf r = .ok (.segmented cu' used segs)) : False := by
+  unfold steppedOf at h
+  cases r with
+  | error e => cases h
+  | ok c => injection h with h; cases h
+
+theorem compileDTText_segWF (tm : Tmpl) (cu : Culture) (hcu : cu.monthHeadsEmpty = true) (t : Text) (cu' : Culture) (used : Nat)
+    (segs : List Seg) (h : compileDTText tm cu t = .ok (.segmented cu' used segs)) : segWF cu' used segs = true := by
+  unfold compileDTText at h
+  cases hc : compileCustom (.datetime tm) cu t with
+  | ok c => rw [hc] at h; exact (steppedOf_not_segmented _ _ _ _ h).elim
+  | error e =>
+    rw [hc] at h
+    cases e <;> first
+      | exact (steppedOf_not_segmented _ _ _ _ h).elim
+      | exact compileSegmented_segWF cu hcu t cu' used segs h
+
+theorem compileDateTime_segWF (tm : Tmpl) (cu : Culture) (hcu : cu.monthHeadsEmpty = true) (ptext : Text) (cu' : Culture)
+    (used : Nat) (segs : List Seg) (h : compileDateTime tm cu ptext = .ok (.segmented cu' used segs)) :
+    segWF cu' used segs = true := by
+  unfold compileDateTime at h
+  split at h
+  · cases h
+  · repeat' (first
+      | exact (steppedOf_not_segmented _ _ _ _ h).elim
+      | exact compileDTText_segWF tm cu hcu _ cu' used segs h
+      | cases h
+      | split at h)
+  · exact compileDTText_segWF tm cu hcu _ cu' used segs h
+
+/-- **success_value_valid** for LocalDateTime, embedded patterns included: whatever pattern text was accepted, whatever
+    valid ISO template value, in whatever culture record whose month tables start with the empty entry, a successful
+    parse of any text carries a valid date and a time inside the day -/
+theorem datetime_success_valid_all (tm : Tmpl) (htm : TmplOK tm) (cu : Culture) (hcu : cu.monthHeadsEmpty = true)
+    (ptext : Text) (p : Pat) (hp : compileDateTime tm cu ptext = .ok p) (l : Text) (v : List Int)
+    (h : parsePat (.datetime (effTmpl tm ptext)) l p = .ok (some v)) :
+    ∃ y m d nod, v = [y, m, d, nod] ∧ validDate y m d ∧ 0 ≤ nod ∧ nod < 86400000000000 := by
+  have htm' : TmplOK (effTmpl tm ptext) := by
+    unfold effTmpl
+    split
+    · split
+      · exact tmplOK_default
+      · exact htm
+    · exact htm
+  rcases compileDateTime_wf tm cu hcu ptext p hp with hw | ⟨cu', used, segs, rfl⟩
+  · exact datetime_success_valid tm htm cu hcu ptext p hp
+      (by obtain ⟨c, rfl, _⟩ := hw; intro _ _ _ e; cases e) l v h
+  · exact datetime_segmented_success_valid _ htm' cu' used segs
+      (compileDateTime_segWF tm cu hcu ptext cu' used segs hp) l v h
+
+/-- **success_value_valid** for Instant patterns, embedded patterns included (the parsed UTC date-time) -/
+theorem instant_success_valid_all (tm : Tmpl) (htm : TmplOK tm) (cu : Culture) (hcu : cu.monthHeadsEmpty = true)
+    (ptext : Text) (p : Pat) (hp : compileInstant tm cu ptext = .ok p) (l : Text) (v : List Int)
+    (h : parsePat (.datetime tm) l p = .ok (some v)) :
+    ∃ y m d nod, v = [y, m, d, nod] ∧ validDate y m d ∧ 0 ≤ nod ∧ nod < 86400000000000 := by
+  rcases compileInstant_wf tm cu hcu ptext p hp with hw | ⟨cu', used, segs, rfl⟩
+  · exact instant_success_valid tm htm cu hcu ptext p hp
+      (by obtain ⟨c, rfl, _⟩ := hw; intro _ _ _ e; cases e) l v h
+  · have hs : segWF cu' used segs = true := by
+      unfold compileInstant at hp
+      split at hp
+      · cases hp
+      · split at hp
+        · exact compileDTText_segWF tm cu hcu _ cu' used segs hp
+        · cases hp
+      · exact compileDTText_segWF tm cu hcu _ cu' used segs hp
+    exact datetime_segmented_success_valid tm htm cu' used segs hs l v h
 
 /-- `segWF` is satisfiable: `ld<uuuu-MM-dd> lt<HH:mm>` and `ld<d MMMM yyyy> 'at' HH:mm` in the invariant culture -/
 example : (match compileDateTime Tmpl.default invariantCulture "ld<uuuu-MM-dd> lt<HH:mm>".toList with
